@@ -122,10 +122,7 @@ def apalache_check(ctx, m):
            "--out-dir=" + os.path.join(ctx["dir"], "apalache_out"), path]
     t0 = time.time()
     with open(out_path, "w") as fo:
-        try:
-            rc = subprocess.run(cmd, cwd=ctx["dir"], stdout=fo, stderr=subprocess.STDOUT, timeout=m.get("timeout", 1500)).returncode
-        except subprocess.TimeoutExpired:
-            rc = -9
+        rc = run_group(cmd, cwd=ctx["dir"], stdout=fo, timeout=m.get("timeout", 1500))
     secs = time.time() - t0
     text = open(out_path, errors="replace").read()
     shutil.rmtree(os.path.join(ctx["dir"], "apalache_out"), ignore_errors=True)
@@ -137,6 +134,26 @@ def apalache_check(ctx, m):
         else:
             raise ToolError("apalache failed on %s (rc=%s, see %s)" % (mod, rc, out_path))
     return res
+
+
+def run_group(cmd, cwd, stdout, timeout):
+    """Runs cmd in its own process group; on timeout (and at exit) the whole group is killed - tlapm's back ends (z3, zenon,
+    isabelle) otherwise survive their parent and keep a core and gigabytes each.  Returns the exit code, -9 on timeout."""
+    import signal
+    p = subprocess.Popen(cmd, cwd=cwd, stdout=stdout, stderr=subprocess.STDOUT, start_new_session=True)
+    try:
+        rc = p.wait(timeout=timeout)
+    except subprocess.TimeoutExpired:
+        rc = -9
+    try:
+        os.killpg(p.pid, signal.SIGKILL)
+    except (ProcessLookupError, PermissionError):
+        pass
+    try:
+        p.wait(timeout=10)
+    except Exception:
+        pass
+    return rc
 
 
 def tlaps_check(ctx, m):
@@ -152,11 +169,7 @@ def tlaps_check(ctx, m):
     rc = -9
     for attempt, stretch in enumerate(("2", "8", "30")):          # back-end time limits stretched on a loaded machine
         with open(out_path, "w") as fo:
-            try:
-                rc = subprocess.run(["tlapm", "--threads", "4", "--stretch", stretch, m["module"] + ".tla"], cwd=d, stdout=fo, stderr=subprocess.STDOUT,
-                                    timeout=m.get("timeout", 600)).returncode
-            except subprocess.TimeoutExpired:
-                rc = -9
+            rc = run_group(["tlapm", "--threads", "4", "--stretch", stretch, m["module"] + ".tla"], cwd=d, stdout=fo, timeout=m.get("timeout", 600))
         text = open(out_path, errors="replace").read()
         mt = re.search(r"All (\d+) obligations? proved", text)
         if (rc == 0 and mt) or rc == -9:
